@@ -187,9 +187,27 @@ func ReadFile(name string) ([]byte, error) {
 	return io.ReadAll(f)
 }
 
-func IsNotExist(err error) bool           { return realos.IsNotExist(err) }
-func IsPermission(err error) bool         { return realos.IsPermission(err) }
-func IsExist(err error) bool              { return realos.IsExist(err) }
-func Getenv(key string) string            { return "" }
-func LookupEnv(key string) (string, bool) { return "", false }
-func Getpid() int                         { return 4242 }
+func IsNotExist(err error) bool   { return realos.IsNotExist(err) }
+func IsPermission(err error) bool { return realos.IsPermission(err) }
+func IsExist(err error) bool      { return realos.IsExist(err) }
+func Getenv(key string) string {
+	if simio.W == nil {
+		return ""
+	}
+	v, _ := simio.W.Getenv(key)
+	return v
+}
+func LookupEnv(key string) (string, bool) {
+	if simio.W == nil {
+		return "", false
+	}
+	return simio.W.Getenv(key)
+}
+func Environ() []string {
+	if simio.W == nil {
+		return nil
+	}
+	return simio.W.Environ()
+}
+func ExpandEnv(s string) string { return realos.Expand(s, Getenv) }
+func Getpid() int               { return 4242 }
